@@ -457,6 +457,19 @@ impl Rewriter {
       let fn_name = original_name.fn_name;
       let replacement_class =
         generics_replacement_map.get(&generic_class_name).unwrap().as_id().unwrap();
+      // The methods of a generic class are declared under the name of the class without type
+      // arguments, and take the type arguments of the class before their own.
+      let (class_name, class_type_arguments) =
+        self.symbol_table.simple_type_name_and_suffix(*replacement_class);
+      let class_fn_name = mir::FunctionName { type_name: class_name, fn_name };
+      if !class_type_arguments.is_empty() && self.original_functions.contains_key(&class_fn_name) {
+        return self.rewrite_non_generic_fn_name(
+          heap,
+          class_fn_name,
+          function_type,
+          class_type_arguments.into_iter().chain(function_type_arguments).collect(),
+        );
+      }
       let rewritten_fn_name = mir::FunctionName { type_name: *replacement_class, fn_name };
       self.rewrite_non_generic_fn_name(
         heap,
